@@ -1004,6 +1004,21 @@ func (g *Gen) havocWrites(hst, st *State, writes []writeRec, base string, preTop
 				strings.Join(ds, " "), nh.S, old.S, nh.S))
 		}
 		hst.heaps[key] = nh
+		if key == "H_Int_uint8" && !whole {
+			var conds []string
+			for _, a := range addrs {
+				conds = append(conds, "(or (= (elemArr "+a+") Nil) (not (= (sarr s) (elemArr "+a+"))))")
+			}
+			for _, p := range pats {
+				conds = append(conds, "(not (= (sarr s) "+p+"))")
+			}
+			if len(shapes) == 0 {
+				if fresh {
+					conds = append(conds, "(<= (rootOid (sarr s)) "+preTop+")")
+				}
+				g.bytesFrame(nh.S, old.S, and(conds...))
+			}
+		}
 	}
 }
 
